@@ -275,3 +275,23 @@ Proof. intros s R. apply inv2_of_parts. apply inv2'_reachable; auto. Qed.
 Theorem no_deadlock : forall s, reachable fixed s -> pending s ->
   exists a, is_arrival fixed s a = false /\ exists s', step fixed s a = Some s'.
 Proof. intros s R P. exact (progress s (inv1_reachable s R) (inv2_reachable s R) P). Qed.
+
+(* no lost wake-up: while a client waits in the second select of compTriggerWait, the goroutine it addressed
+   still holds its acknowledgement channel (as its current command, or -- tCompaction -- in its wait queue) and
+   stands at a point from which every path, the exit paths included, delivers the acknowledgement
+   (mCompaction: not at M0 / MDone; tCompaction: a command of its own is only held away from the receptive
+   points, and its queue is non-empty only away from T2 / TDone) *)
+Theorem ack_registered : forall s i, reachable fixed s ->
+  (is_trigw BM (cli s i) = true -> mx s = Some (i, ctk s i) /\ mc s <> M0 /\ mc s <> MDone) /\
+  (is_trigw BT (cli s i) = true ->
+     (tx s = Some (i, ctk s i) /\ tx_none_pc (tc s) = false) \/
+     (In (i, ctk s i) (tq s) /\ tc s <> T2 /\ tc s <> TDone)).
+Proof.
+  intros s i R. pose proof (inv2_reachable s R) as I2. split; intro H.
+  - pose proof (l1 s I2 i H) as X. repeat split; auto; intro E;
+      (assert (Y : mx s = None) by (apply (g8 s I2); auto)); congruence.
+  - destruct (l2 s I2 i H) as [X | X].
+    + left. split; auto. destruct (tx_none_pc (tc s)) eqn:E; auto. pose proof (g9a s I2 E). congruence.
+    + right. repeat split; auto; intro E;
+        (assert (Y : tq s = []) by (apply (g9b s I2); auto)); rewrite Y in X; destruct X.
+Qed.
